@@ -17,7 +17,8 @@ ASSUMPTIONS = [
 
 MID_TAGS = ["<!-- legacy -->", "{% ref \"init\" %}", "{{ total }}", "{# note #}"]
 LISTY = ["2019.", "2)", "|", "10.", "3)", "| b |"]        # words that look like block starts but cannot interrupt a paragraph
-PLAINW = ["the", "importer", "was", "rewritten", "in", "rows", "then", "follow", "steps", "It", "now.", "Done!"]
+PLAINW = ["the", "importer", "was", "rewritten", "in", "rows", "then", "follow", "steps", "It", "now.", "Done!",
+          "{name}", "{0}", "{.cls}", "<b>"]       # brace words that are not tags
 
 
 def tag_paragraph_layouts(rnd):
